@@ -59,6 +59,56 @@ def mapInsert (k v : Bytes) : KVs → KVs
 /-- `for _, kv := range extras { m[kv.Key] = kv.Value }`. -/
 def mapOfKVs (kvs : KVs) : KVs := kvs.foldl (fun m kv => mapInsert kv.1 kv.2 m) []
 
+/-! ### What a string becomes on its way through `json.Marshal` and a JSON decoder
+
+`vgi_rpc.log_extra` is `json.Marshal(map[string]string)`. Every rune — control characters,
+quotes, backslashes, `<>&`, U+2028/2029 — is escaped reversibly; bytes that are not valid UTF-8
+are each replaced by U+FFFD (documented behaviour of encoding/json). -/
+
+def replacementChar : Bytes := [0xef, 0xbf, 0xbd]
+
+def isCont (b : UInt8) : Bool := 0x80 ≤ b && b ≤ 0xbf
+
+/-- Length of the valid UTF-8 sequence at the head of the list (Go's `utf8.DecodeRune` acceptance
+table: no overlong forms, no surrogates, nothing above U+10FFFF), or 0. -/
+def utf8SeqLen : Bytes → Nat
+  | [] => 0
+  | b0 :: rest =>
+    if b0 < 0x80 then 1
+    else if 0xc2 ≤ b0 && b0 ≤ 0xdf then
+      match rest with
+      | b1 :: _ => if isCont b1 then 2 else 0
+      | _ => 0
+    else if 0xe0 ≤ b0 && b0 ≤ 0xef then
+      match rest with
+      | b1 :: b2 :: _ =>
+        let lo : UInt8 := if b0 = 0xe0 then 0xa0 else 0x80
+        let hi : UInt8 := if b0 = 0xed then 0x9f else 0xbf
+        if lo ≤ b1 && b1 ≤ hi && isCont b2 then 3 else 0
+      | _ => 0
+    else if 0xf0 ≤ b0 && b0 ≤ 0xf4 then
+      match rest with
+      | b1 :: b2 :: b3 :: _ =>
+        let lo : UInt8 := if b0 = 0xf0 then 0x90 else 0x80
+        let hi : UInt8 := if b0 = 0xf4 then 0x8f else 0xbf
+        if lo ≤ b1 && b1 ≤ hi && isCont b2 && isCont b3 then 4 else 0
+      | _ => 0
+    else 0
+
+def jsonCoerceAux : Nat → Bytes → Bytes
+  | 0, _ => []
+  | _, [] => []
+  | fuel + 1, b :: rest =>
+    match utf8SeqLen (b :: rest) with
+    | 0 => replacementChar ++ jsonCoerceAux fuel rest            -- one bad byte → one U+FFFD
+    | n => (b :: rest).take n ++ jsonCoerceAux fuel ((b :: rest).drop n)
+
+/-- A Go string after `json.Marshal` + JSON decoding. -/
+def jsonCoerce (s : Bytes) : Bytes := jsonCoerceAux s.length s
+
+/-- A `map[string]string` after the JSON round trip (keys are assumed to stay distinct). -/
+def wireExtras (m : KVs) : KVs := m.map fun kv => (jsonCoerce kv.1, jsonCoerce kv.2)
+
 /-! ### CallContext logging (vgirpc/context.go) -/
 
 /-- One `ctx.ClientLog(level, msg, extras...)` call made by a handler. -/
@@ -164,7 +214,8 @@ def runtimeErr (m : Bytes) : SrvErr := { msg := runtimeError ++ colonSpace ++ m 
 
 /-- What one IPC record batch of a response is, as far as the properties are concerned. -/
 inductive Batch
-  /-- zero-row batch written by `writeLogBatch` / `OutputCollector.ClientLog`. -/
+  /-- zero-row batch written by `writeLogBatch` / `OutputCollector.ClientLog`; `extras` is the
+  DECODED `vgi_rpc.log_extra` object. -/
   | log (level msg : Bytes) (extras : KVs) (rid : Option Bytes)
   /-- zero-row EXCEPTION batch written by `writeErrorBatch`. -/
   | exc (msg : Bytes) (rid : Option Bytes)
@@ -184,7 +235,7 @@ structure IpcStream where
 def ridOpt (rid : Bytes) : Option Bytes := if rid = [] then none else some rid
 
 /-- `writeLogBatch(w, schema, msg, serverID, requestID)`. -/
-def writeLogBatch (m : LogMessage) (rid : Bytes) : Batch := .log m.level m.msg m.extras (ridOpt rid)
+def writeLogBatch (m : LogMessage) (rid : Bytes) : Batch := .log m.level m.msg (wireExtras m.extras) (ridOpt rid)
 
 /-- `writeErrorBatch(w, schema, err, serverID, requestID, debug)`: the request id written is the
 one of the call being answered — never one the error value carries or was given by an earlier call. -/
